@@ -97,6 +97,17 @@ def rewrite(s, rules, what):
     return s
 
 
+def c_api_capacity(repo):
+    """capacity of the C API's AMPLOptions_C::options_ (nl-writer2/include/api/c/sol-handler-c.h) with MAX_AMPL_OPTIONS from nl-header-c.h"""
+    ch = open(os.path.join(repo, 'nl-writer2', 'include', 'api', 'c', 'sol-handler-c.h')).read()
+    nh = open(os.path.join(repo, 'nl-writer2', 'include', 'mp', 'nl-header-c.h')).read()
+    mx = re.findall(r'\bMAX_AMPL_OPTIONS\s*=\s*(\d+)', nh)
+    arr = re.findall(r'long options_\[\s*(MAX_AMPL_OPTIONS(?:\s*\+\s*\d+)?|\d+)\s*\];', ch)
+    if len(mx) != 1 or len(arr) != 1:
+        raise TranslateError('C API: MAX_AMPL_OPTIONS / `long options_[...]` of AMPLOptions_C not found exactly once')
+    return eval(arr[0].replace('MAX_AMPL_OPTIONS', mx[0]), {'__builtins__': {}})
+
+
 def build_tu(repo):
     rd = open(os.path.join(repo, 'nl-writer2', 'include', 'mp', 'sol-reader2.hpp')).read()
     wr = open(os.path.join(repo, 'include', 'mp', 'sol.h')).read()
@@ -158,6 +169,19 @@ def build_tu(repo):
     for nm, ex in zip(('suffix_is_real_bin', 'suffix_is_real_text'), tests):
         parts.append('int %s(int kind) {\n  if (%s) return 1;\n  return 0;\n}\n' % (nm, ex))
 
+    # ---- C API: how many option values NLW2_SOLHandler_C_Impl::OnAMPLOptions copies into AMPLOptions_C::options_ and reports in n_options_
+    # (sol-handler-c-impl.h).  Trusted rewrites: `sizeof(ao_c.options_) / sizeof(ao_c.options_[0])` -> the array length read from sol-handler-c.h,
+    # `std::min` on two std::size_t -> the function sg_min below (its definition in the C++ standard), `ao.options_.size()` -> the parameter.
+    ci = open(os.path.join(repo, 'nl-writer2', 'include', 'api', 'c', 'sol-handler-c-impl.h')).read()
+    sl = cut(ci, '    AMPLOptions_C ao_c;\n', '    std::copy(ao.options_.begin()', 'C API options copy count')
+    sl = rewrite(sl, [(r'AMPLOptions_C ao_c;', '', 1), (r'sizeof\(ao_c\.options_\)\s*/\s*sizeof\(ao_c\.options_\[0\]\)', '%dUL' % c_api_capacity(repo), 1),
+                      (r'std::min\(', 'sg_min(', 1), (r'ao\.options_\.size\(\)', 'size_', 1), (r'ao_c\.n_options_', 'n_options_', 1),
+                      (r'std::size_t', 'unsigned long', 2)], 'C API options copy count')
+    if len(re.findall(r'std::copy\(ao\.options_\.begin\(\), ao\.options_\.begin\(\) \+ n,\s*ao_c\.options_\);', ci)) != 1:
+        raise TranslateError('C API options copy: `std::copy(ao.options_.begin(), ao.options_.begin() + n, ao_c.options_);` not found exactly once')
+    parts.append('unsigned long sg_min(unsigned long a, unsigned long b) { return b < a ? b : a; }\n'
+                 'int c_api_copy_count(unsigned long size_) {\n  int n_options_ = 0;\n%s  return n_options_;\n}\n' % sl)
+
     # ---- writer: kind mask and OUTPUT filter (include/mp/sol.h, WriteSuffixes); markers do not contain the decisions themselves
     mm = re.findall(r'\n(    int mask = [^;]*;)', wr)
     if len(mm) != 1 or wr.count('i->kind() & mask,') != 1:
@@ -182,7 +206,7 @@ def writer_formats(wr):
 
 
 FUNCS = ['count_guard', 'sufheadcheck', 'lget_step', 'opts_header_text', 'opts_header_bin', 'is_opts_record', 'rec_len', 'suffix_is_real_bin', 'suffix_is_real_text',
-         'w_kind_mask', 'w_is_output']
+         'w_kind_mask', 'w_is_output', 'c_api_copy_count']
 
 
 def main():
@@ -223,14 +247,7 @@ def main():
             nf.append(mm[0])
         if len(re.findall(r"isnegative\(static_cast<double>\(value\)\)\) \{\s*sign = '-';", fh)) != 1:
             raise TranslateError("format.h: `sign = '-'` for negative values not found exactly once")
-        # capacity of the C API's AMPLOptions_C::options_ (nl-writer2/include/api/c/sol-handler-c.h) with MAX_AMPL_OPTIONS from nl-header-c.h
-        ch = open(os.path.join(repo, 'nl-writer2', 'include', 'api', 'c', 'sol-handler-c.h')).read()
-        nh = open(os.path.join(repo, 'nl-writer2', 'include', 'mp', 'nl-header-c.h')).read()
-        mx = re.findall(r'\bMAX_AMPL_OPTIONS\s*=\s*(\d+)', nh)
-        arr = re.findall(r'long options_\[\s*(MAX_AMPL_OPTIONS(?:\s*\+\s*\d+)?|\d+)\s*\];', ch)
-        if len(mx) != 1 or len(arr) != 1:
-            raise TranslateError('C API: MAX_AMPL_OPTIONS / `long options_[...]` of AMPLOptions_C not found exactly once')
-        capacity = eval(arr[0].replace('MAX_AMPL_OPTIONS', mx[0]), {'__builtins__': {}})
+        capacity = c_api_capacity(repo)
     except TranslateError as e:
         print('TRANSLATE-ERROR gen_solguards: %s' % e)
         sys.exit(3)
@@ -241,6 +258,8 @@ def main():
             'def sx64 (n : Nat) : Int := if n ≥ 9223372036854775808 then (n : Int) - 18446744073709551616 else (n : Int)',
             'def cband (a b : Int) : Int := sx64 ((a % 18446744073709551616).toNat &&& (b % 18446744073709551616).toNat)',
             'def cbor (a b : Int) : Int := sx64 ((a % 18446744073709551616).toNat ||| (b % 18446744073709551616).toNat)', '']
+    for _nm, text in tr.order:          # callees (sg_min), in dependency order
+        lean.append(text)
     for f in FUNCS:
         lean.append(defs[f])
     lean.append('/-- format strings of the prints in include/mp/sol.h, in source order -/')
